@@ -188,6 +188,7 @@ type Result struct {
 	Methods  []MethodObs       `json:"methods,omitempty"`
 	Schemas  [][2]string       `json:"schemas,omitempty"`
 	Entities []string          `json:"entities,omitempty"`
+	ClientPkgs []string `json:"client_pkgs,omitempty"` // names of the packages of the client API
 	EntObs   []EntObs          `json:"ent_obs,omitempty"` // entities of the client API: state schema and event names
 	Printed  map[string]string `json:"printed,omitempty"`
 	Extra    map[string]string `json:"extra,omitempty"`
@@ -733,6 +734,7 @@ func observeClient(capi *client_j5pb.API, res *Result) {
 		}
 	}
 	for _, p := range capi.Packages {
+		res.ClientPkgs = append(res.ClientPkgs, p.Name)
 		for _, sv := range p.Services {
 			addSvc(sv)
 		}
